@@ -145,7 +145,7 @@ pub fn build(a: &LensArgs) -> LensCfg {
         },
         "sat" => {
             cfg.name = "sat";
-            cfg.codes = codes(&[New, Dup, Drop, Store, Collect, Downgrade, Upgrade, DupWeak, DropWeak, FillStrong, FillWeak, DropStash, CloneExpectPanic, DowngradeExpectPanic, UpgradeExpectPanic, DupWeakExpectPanic]);
+            cfg.codes = codes(&[New, Dup, Drop, Store, Collect, Downgrade, Upgrade, DupWeak, DropWeak, FillStrong, FillWeak, FillBag, DropStash, CloneExpectPanic, DowngradeExpectPanic, UpgradeExpectPanic, DupWeakExpectPanic]);
             // optional: finalized-and-resurrected objects at the limit (flag bit next to the counter)
             if let Some(m) = a.fin_menu.clone() {
                 cfg.codes |= codes(&[SetFin, TakeG, DropG]);
